@@ -368,10 +368,10 @@ def construction_checks(ctx, rep):
 def single_model_checks(ctx, rep):
     """A linker that wraps a single model and adds no equations solves it as the model solves itself."""
     rng = ctx.sub_rng('single')
-    for _ in range((250 if ctx.tier == 'quick' else 4000) * ctx.scale):
+    for _ in range((250 if ctx.tier == 'quick' else 30000) * ctx.scale // ctx.parts):
         a = rng.choice([rng.uniform(0.05, 0.6), rng.uniform(1.1, 2.0), -rng.uniform(0.3, 1.2), rng.uniform(0.9, 0.999)])
         b, c = rng.uniform(-0.9, 0.9), rng.uniform(-2, 2)
-        script = f'Y = {a!r} * Z + {c!r} + 0.5 * Y[-1]\nZ = {b!r} * Y + X'
+        script = f'Y = {a:.12f} * Z + {c:.12f} + 0.5 * Y[-1]\nZ = {b:.12f} * Y + X'
         Model = fsic.build_model(fsic.parse_model(script))
         n = 5
         x = rng.uniform(-1, 1)
@@ -409,9 +409,9 @@ def single_model_checks(ctx, rep):
         rep.dist['single-model:' + ('finite' if finite else 'nonfinite')] += 1
 
 
-def run(ctx, rep):
+def _work(ctx, rep):
     rng = ctx.sub_rng('cases')
-    N = (5000 if ctx.tier == 'quick' else 120000) * ctx.scale
+    N = (5000 if ctx.tier == 'quick' else 600000) * ctx.scale // ctx.parts
     for chunk in range(0, N, 5000):
         cases = [gen_case(rng) for _ in range(min(5000, N - chunk))]
         impl = []
@@ -430,6 +430,11 @@ def run(ctx, rep):
                     rep.disagree('linker solve_t: model != impl', case, a, b)
     construction_checks(ctx, rep)
     single_model_checks(ctx, rep)
+
+
+def run(ctx, rep):
+    import framework
+    framework.parallel(_work, ctx, rep, parts=(1 if ctx.tier == 'quick' else ctx.workers))
 
 
 def replay(ctx, rep, case):
